@@ -240,7 +240,7 @@ func buildDescriptor(m *gMsg) protoreflect.MessageDescriptor {
 
 // ---- values -----------------------------------------------------------------
 
-var strPool = []string{"", "a", "b", "ab", "hello", " ", "a  b", "\x00", "ÿ", "值", "x\ny", "2021-01-01T00:00:00Z", "zz", "a\u3000b", " lead", "trail ", "tab\there", "q\"uote", "back\\slash", "1970-01-01T00:00:00+08:00"}
+var strPool = []string{"", "a", "b", "ab", "hello", " ", "a  b", "\x00", "ÿ", "值", "x\ny", "2021-01-01T00:00:00Z", "zz", "a\u3000b", " lead", "trail ", "tab\there", "q\"uote", "back\\slash", "1970-01-01T00:00:00+08:00", "C:\\data\\", "\\", "two  blanks", "ends\\\"q"}
 
 // genWellKnown builds a Timestamp / Duration value of the given message descriptor
 func genWellKnown(r *rand.Rand, kind string, md protoreflect.MessageDescriptor) protoreflect.Value {
